@@ -393,7 +393,7 @@ fn deltas(r: &Runner, cfg: &Cfg, now: u64) -> Vec<u64> {
     let c = &cfg.pc;
     let mut ds: Vec<u64> = vec![c.min_refetch_delay.as_nanos() as u64, c.min_expiry_threshold.as_nanos() as u64, c.refetch_interval.as_nanos() as u64,
         c.max_idle_period.as_nanos() as u64, c.issue_deduplication_window.as_nanos() as u64, f32_ns(c.fetch_failure_backoff.minimum_delay_secs),
-        f32_ns(c.fetch_failure_backoff.maximum_delay_secs), 30 * NS, 90 * NS];
+        f32_ns(c.fetch_failure_backoff.maximum_delay_secs), 30 * NS, 90 * NS, 300 * NS, 900 * NS];
     for p in &r.u.paths {
         let e = p.path.expiration().unwrap() as u64 * NS;
         if e > now { ds.push(e - now); if e - now > c.min_expiry_threshold.as_nanos() as u64 { ds.push(e - now - c.min_expiry_threshold.as_nanos() as u64); } }
@@ -434,6 +434,8 @@ async fn gen_random(rng: &mut Rng, prop: &str, len: usize) -> Option<Case> {
     let pol = gen_pol(rng, &u);
     let issues = pick_issues(rng, &u, 4);
     let w = weights(prop);
+    let burst_issues = issues.clone();
+    let bursty = prop == "C07";
     let tot = w.tick + w.due + w.report + w.deliver + w.direct + w.send + w.sendwait;
     let script = move |rng: &mut Rng, r: &Runner, now: u64, k: usize| -> Option<Ev> {
         if k == 0 { return Some(Ev::Tick { now, ans: gen_answer(rng, &r.u) }); }
@@ -470,9 +472,17 @@ async fn gen_random(rng: &mut Rng, prop: &str, len: usize) -> Option<Case> {
     // (assumption of issue_memory_bounded: accepted re-reports have strictly later timestamps)
     let zero_window = cfg.pc.issue_deduplication_window.is_zero();
     let mut last_report: Vec<(HookIssue, u64)> = vec![];
+    // C07: 2-3 reports (same and different kinds) queue up before the worker handles the first
+    let mut burst = 0usize;
     let wrapped = move |rng: &mut Rng, r: &Runner, now: u64, k: usize| -> Option<Ev> {
-        if pending_deliver { pending_deliver = false; if rng.chance(3, 4) { return Some(Ev::Deliver { now }); } }
-        let mut e = script(rng, r, now, k)?;
+        if pending_deliver && bursty && burst == 0 && !burst_issues.is_empty() && rng.chance(1, 3) { burst = 1 + rng.below(2) as usize; }
+        let mut e = if burst > 0 {
+            burst -= 1;
+            Ev::Report { now, issue: *rng.pick(&burst_issues) }
+        } else {
+            if pending_deliver { pending_deliver = false; if rng.chance(3, 4) { return Some(Ev::Deliver { now }); } }
+            script(rng, r, now, k)?
+        };
         if let Ev::Report { now: t, issue } = &mut e {
             pending_deliver = true;
             if zero_window {
@@ -639,10 +649,70 @@ async fn gen_directed(k: usize) -> Option<Case> {
                 Ev::Tick { now: t(665), ans: None }, Ev::Send { now: t(666) }];
             run_case(cfg, u, Pol::None, "directed-backoff-outlasts-threshold".into(), fixed(evs), &mut rng, 99).await
         }
+        // a batch of reports hitting the path in use is handled in one worker step: first-hop send
+        // failure + interface down (2 hits, 2 cached paths), the other path is clean
+        12 => {
+            let mut cfg = cfg_default(); cfg.pc.max_idle_period = secs(100000);
+            let u = Universe { paths: vec![one(0, 20000), one(1, 20000)] };
+            let act = |o: u64| -> (HookIssue, HookIssue) { let _ = o; (ISSUE_POOL[8], ISSUE_POOL[0]) };
+            let (i1, i2) = act(0);
+            // whichever path is taken into use (equal scores), hit it twice: routes 0 and 1 have first egress 1 / 5
+            let evs = vec![Ev::Tick { now: t(0), ans: Some(vec![0, 1]) }, Ev::Send { now: t(0) },
+                Ev::Report { now: t(5), issue: i1 }, Ev::Report { now: t(5), issue: i2 },
+                Ev::Report { now: t(5), issue: ISSUE_POOL[9] }, Ev::Report { now: t(5), issue: ISSUE_POOL[1] },
+                Ev::Deliver { now: t(5) }, Ev::Send { now: t(5) }, Ev::Send { now: t(200) }];
+            run_case(cfg, u, Pol::None, "directed-batch-both".into(), fixed(evs), &mut rng, 99).await
+        }
+        13 => {
+            let mut cfg = cfg_default(); cfg.pc.max_idle_period = secs(100000);
+            // route 4 (2 hop fields) outranks route 0: it is the path in use; it is hit by a first-hop
+            // failure and an interface-down of the destination... only the first-hop report matches
+            let u = Universe { paths: vec![one(0, 20000), one(2, 20000), one(3, 20000)] };
+            let evs = vec![Ev::Tick { now: t(0), ans: Some(vec![0, 1, 2]) }, Ev::Send { now: t(0) },
+                Ev::Report { now: t(5), issue: ISSUE_POOL[8] }, Ev::Report { now: t(5), issue: ISSUE_POOL[0] },
+                Ev::Report { now: t(6), issue: ISSUE_POOL[5] },
+                Ev::Deliver { now: t(6) }, Ev::Send { now: t(6) }, Ev::Send { now: t(100) }];
+            run_case(cfg, u, Pol::None, "directed-batch-failover".into(), fixed(evs), &mut rng, 99).await
+        }
+        // an interface failed many half-lives ago; a lookup now brings a NEW path over it and a longer
+        // clean one: the new path enters with a decayed (vanished) penalty and is preferred
+        14 => {
+            let mut cfg = cfg_default(); cfg.pc.max_idle_period = secs(100000);
+            let u = Universe { paths: vec![one(3, 20000), one(0, 20000), one(2, 20000)] };
+            let evs = vec![Ev::Tick { now: t(0), ans: Some(vec![0]) }, Ev::Send { now: t(0) },
+                Ev::Report { now: t(1000), issue: ISSUE_POOL[0] }, Ev::Deliver { now: t(1000) },
+                Ev::Report { now: t(1000), issue: ISSUE_POOL[8] }, Ev::Deliver { now: t(1000) },
+                Ev::Tick { now: t(1800), ans: Some(vec![0, 1, 2]) }, Ev::Send { now: t(1800) },
+                // and shortly after a report: the penalty is still there
+                Ev::Report { now: t(1900), issue: ISSUE_POOL[11] }, Ev::Deliver { now: t(1900) },
+                Ev::Tick { now: t(3600), ans: Some(vec![0, 1, 2]) }];
+            run_case(cfg, u, Pol::None, "directed-decayed-issue-new-path".into(), fixed(evs), &mut rng, 99).await
+        }
+        // the same with the lookup only 20 s after the report: the new path enters with most of the penalty
+        15 => {
+            let mut cfg = cfg_default(); cfg.pc.max_idle_period = secs(100000); cfg.pc.min_expiry_threshold = secs(60); cfg.pc.refetch_interval = secs(100);
+            let u = Universe { paths: vec![one(3, 20000), one(0, 20000)] };
+            let evs = vec![Ev::Tick { now: t(0), ans: Some(vec![0]) }, Ev::Send { now: t(0) },
+                Ev::Report { now: t(80), issue: ISSUE_POOL[0] }, Ev::Deliver { now: t(80) },
+                Ev::Tick { now: t(100), ans: Some(vec![0, 1]) }, Ev::Send { now: t(100) },
+                Ev::Tick { now: t(500), ans: Some(vec![0, 1]) }, Ev::Send { now: t(500) }];
+            run_case(cfg, u, Pol::None, "directed-fresh-issue-new-path".into(), fixed(evs), &mut rng, 99).await
+        }
+        // batches in which only the FIRST / only the LAST report hits the path in use
+        16 | 17 => {
+            let mut cfg = cfg_default(); cfg.pc.max_idle_period = secs(100000);
+            let u = Universe { paths: vec![one(0, 20000), one(3, 20000)] };
+            let hit = ISSUE_POOL[0]; let miss = ISSUE_POOL[12]; let miss2 = HookIssue::InterfaceDown { isd_asn: ia(98), interface_id: 2 };
+            let batch = if k == 16 { vec![hit, miss, miss2] } else { vec![miss, miss2, hit] };
+            let mut evs = vec![Ev::Tick { now: t(0), ans: Some(vec![0, 1]) }, Ev::Send { now: t(0) }];
+            for i in batch { evs.push(Ev::Report { now: t(7), issue: i }); }
+            evs.push(Ev::Deliver { now: t(7) }); evs.push(Ev::Send { now: t(7) }); evs.push(Ev::Send { now: t(60) });
+            run_case(cfg, u, Pol::None, format!("directed-batch-{}", if k == 16 { "first-hits" } else { "last-hits" }), fixed(evs), &mut rng, 99).await
+        }
         _ => None,
     }
 }
-const N_DIRECTED: usize = 12;
+const N_DIRECTED: usize = 18;
 
 fn emit(c: &Case, shards: &mut Shards, sum: &mut Summary, seen: &mut std::collections::HashSet<String>) {
     let evs = coq_list(c.evs.iter().map(|(e, o)| format!("({}, {})", e.coq(), o.coq())));
